@@ -250,6 +250,10 @@ def corpus(tier):
         for gap in (0.0, 0.001, 0.01):
             out.append(_plan([conn('p2'), pot('p0'), _ann('p0', gap=1.0), pot('p1', gap=1.0),
                               _ann('p1', level=4, root='r2', gap=1.0), close('p0', how=how, gap=gap)]))
+    # 4b. a child that goes away right after it connected, the end of its connection swept over the client's loop iterations
+    for how in ('close', 'abort'):
+        for k in range(0, 24):
+            out.append(_plan([conn('p2'), close('p2', via='con', how=how, gap=0.0, hops=k), conn('p3', gap=2.0)]))
     # 5. two candidates: the first incomplete, the second complete, then the first completes
     out.append(_plan([pot('p0', 'p1'), _ann('p0', order='l', level=2), _ann('p1', level=3, root='r2'),
                       _ann('p0', order='r', root='r1', gap=1.0)]))
@@ -566,6 +570,18 @@ def _run(world: World, plan):
             role = role_of(rec)
             rec['ended'] = ev.get('how', 'close')
             rec['ended_at'] = loop.time()
+            if ev.get('hops'):
+                # the end of the connection reaches the client this many loop iterations later than it otherwise would:
+                # places it between the steps the client takes for a connection that has just been initialised
+                sim_conn = rec['link'].writer.transport.conn
+                left = [int(ev['hops'])]
+
+                def hops_for(conn, direction, sim_conn=sim_conn, left=left):
+                    if conn is sim_conn and left[0] > 0:
+                        n, left[0] = left[0], 0
+                        return n
+                    return 0
+                world.net.arrive_hops = hops_for
             if rec['ended'] == 'abort':
                 world.net.fired['remote_rst'] += 1
                 rec['link'].abort()
